@@ -196,6 +196,43 @@ impl Sx {
         vals.pop().unwrap()
     }
 
+    /// Model of the "interned" size of a tree: every distinct atom (by content)
+    /// and every distinct pair (by content) counted once;
+    /// weight = atom bytes + 2 per atom + 3 per pair.
+    pub fn interned_vbytes(&self) -> u64 {
+        use std::collections::HashSet;
+        enum Op<'a> {
+            Visit(&'a Sx),
+            Combine,
+        }
+        let mut atoms: HashSet<&[u8]> = HashSet::new();
+        let mut pairs: HashSet<[u8; 32]> = HashSet::new();
+        let mut ops = vec![Op::Visit(self)];
+        let mut vals: Vec<[u8; 32]> = vec![];
+        while let Some(op) = ops.pop() {
+            match op {
+                Op::Visit(Sx::Atom(b)) => {
+                    atoms.insert(b);
+                    vals.push(sha256(&[&[1u8], b]));
+                }
+                Op::Visit(Sx::Pair(l, r)) => {
+                    ops.push(Op::Combine);
+                    ops.push(Op::Visit(r));
+                    ops.push(Op::Visit(l));
+                }
+                Op::Combine => {
+                    let r = vals.pop().unwrap();
+                    let l = vals.pop().unwrap();
+                    let h = sha256(&[&[2u8], &l, &r]);
+                    pairs.insert(h);
+                    vals.push(h);
+                }
+            }
+        }
+        let bytes: u64 = atoms.iter().map(|a| a.len() as u64).sum();
+        bytes + 2 * atoms.len() as u64 + 3 * pairs.len() as u64
+    }
+
     pub fn count_nodes(&self) -> (usize, usize) {
         let mut atoms = 0;
         let mut pairs = 0;
@@ -246,6 +283,13 @@ impl Sx {
 
     /// Read a value back out of an allocator (trusted accessor).
     pub fn from_node(a: &Allocator, n: NodePtr) -> Sx {
+        Sx::from_node_capped(a, n, usize::MAX).expect("uncapped")
+    }
+
+    /// Like `from_node`, but gives up (None) once more than `max_nodes` nodes
+    /// were produced: allocator DAGs can unfold exponentially.
+    pub fn from_node_capped(a: &Allocator, n: NodePtr, max_nodes: usize) -> Option<Sx> {
+        let mut produced = 0usize;
         enum Op {
             Visit(NodePtr),
             Cons,
@@ -253,6 +297,10 @@ impl Sx {
         let mut ops = vec![Op::Visit(n)];
         let mut vals: Vec<Sx> = vec![];
         while let Some(op) = ops.pop() {
+            produced += 1;
+            if produced > max_nodes {
+                return None;
+            }
             match op {
                 Op::Visit(n) => match a.sexp(n) {
                     SExp::Atom => vals.push(Sx::atom(a.atom(n).as_ref())),
@@ -269,7 +317,7 @@ impl Sx {
                 }
             }
         }
-        vals.pop().unwrap()
+        vals.pop()
     }
 
     /// compact text form for samples and witnesses
